@@ -75,9 +75,10 @@ Definition fin_is_drop (f : drain_end) : bool := match f with DropIt => true | F
 (** [g_step cap g o after]: what the plain model says about operation [o] on grid [g].
     [after] is the observed data after the step, used only to learn the identities that
     [T::default()] produced. *)
-Definition g_step (cap : N) (g : grid elt) (o : hop) (after : list elt) : expect :=
+Fixpoint g_step (cap : N) (g : grid elt) (o : hop) (after : list elt) {struct o} : expect :=
   let unchanged := ExpGrid false g None in
   match o with
+  | HBomb _ o' => g_step cap g o' after
   | HFromVec c r d =>
       if zero_rule_ok c r && (c * r =? N.of_nat (length d))%N && fits_nat c && fits_nat r
       then ExpGrid true (g_of_data (N.to_nat c) (N.to_nat r) d) None
@@ -181,6 +182,8 @@ Fixpoint grid_eqb (a b : grid elt) : bool :=
   | _, _ => false
   end.
 
+Definition is_bomb (o : hop) : bool := match o with HBomb _ _ => true | _ => false end.
+
 Definition obs_grid (s : sobs) : grid elt := g_of_data (s_cols s) (s_rows s) (s_data s).
 
 (** every step: shape invariant; and, where the plain model specifies the step, the same
@@ -192,10 +195,15 @@ Fixpoint spec_steps (cap : N) (g : grid elt) (ops : list hop) (obs : list sobs) 
       shape_ok s
       && match g_step cap g o (s_data s) with
          | ExpGrid ok g' out =>
-             Bool.eqb (s_ok s) ok
+             (* under an injected destructor panic the call may end in a (caught) panic and
+                its return values are lost; the array must be the same nevertheless *)
+             (is_bomb o || Bool.eqb (s_ok s) ok)
              && grid_eqb (obs_grid s) g'
              && (s_cols s =? g_width g') && (s_rows s =? g_height g')
-             && match out with Some l => list_N_eqb (s_out s) l | None => true end
+             && match out with
+                | Some l => (is_bomb o && negb (s_ok s)) || list_N_eqb (s_out s) l
+                | None => true
+                end
              && spec_steps cap g' ops' obs'
          | ExpAny => spec_steps cap (obs_grid s) ops' obs'
          end
@@ -210,8 +218,9 @@ Definition sub_multiset (a b : list N) : bool :=
   forallb (fun x => count_N x a <=? count_N x b) a.
 Definition eq_multiset (a b : list N) : bool := list_N_eqb (sort_N a) (sort_N b).
 
-Definition introduced (o : hop) (before : list elt) (s : sobs) : list elt :=
+Fixpoint introduced (o : hop) (before : list elt) (s : sobs) {struct o} : list elt :=
   match o with
+  | HBomb _ o' => introduced o' before s
   | HFromVec _ _ d => d
   | HNew _ _ => if s_ok s then s_data s else []
   | HInit _ _ v => if s_ok s then repeat v (Nat.max 1 (length (s_data s))) else [v]
@@ -222,8 +231,9 @@ Definition introduced (o : hop) (before : list elt) (s : sobs) : list elt :=
   | _ => []
   end.
 
-Definition fault_free_op (o : hop) : bool :=
+Fixpoint fault_free_op (o : hop) : bool :=
   match o with
+  | HBomb _ o' => fault_free_op o'
   | HInsertRow _ s | HPushRow s | HInsertCol _ s | HPushCol s => honest s
   | HRemoveRow _ _ f | HPopRow _ f | HRemoveCol _ _ f | HPopCol _ f => fin_is_drop f
   | _ => true
